@@ -71,6 +71,20 @@ def _merge_measures(acc, m):
             acc[k] = acc.get(k, 0) + v
 
 
+def sut_frame(e):
+    """the innermost repository frame below /verif's last frame in the traceback of e, or None when the exception
+    comes from /verif's own code"""
+    tb = traceback.extract_tb(e.__traceback__)
+    repo = os.path.abspath(os.environ.get("VERIF_REPO", "/repo")) + os.sep
+    last_verif = max([i for i, f in enumerate(tb) if os.path.abspath(f.filename).startswith(VERIF + os.sep)] or [-1])
+    sut = [f for f in tb[last_verif + 1:] if os.path.abspath(f.filename).startswith(repo)]
+    return sut[-1] if sut else None
+
+
+def is_harness_exception(e):
+    return sut_frame(e) is None
+
+
 def safe_execute(check, desc, ctx):
     """check.execute, but an exception raised by the code under test (a frame below /verif's last frame lies in the
     repository) is that run's violation, not a fault of the harness"""
@@ -205,7 +219,7 @@ def run_batch(check, ctx, nruns, budget_s, selftest_every=0, hard_timeout_s=None
     return results, crashes, hit_budget
 
 
-def run_single_isolated(check, ctx, desc, timeout_s=300):
+def run_single_isolated(check, ctx, desc, timeout_s=300, safe=True):
     """execute one descriptor in a forked child; returns ("res", result) | ("crash", status) | ("timeout", None)"""
     r, w = os.pipe()
     sys.stdout.flush()
@@ -213,7 +227,7 @@ def run_single_isolated(check, ctx, desc, timeout_s=300):
     if pid == 0:
         os.close(r)
         try:
-            res = safe_execute(check, desc, ctx)
+            res = safe_execute(check, desc, ctx) if safe else check.execute(desc, ctx)
             os.write(w, json.dumps(res).encode())
             os._exit(0)
         except BaseException:
@@ -242,6 +256,23 @@ def run_single_isolated(check, ctx, desc, timeout_s=300):
             raise HarnessError("isolated run raised:\n" + res["exc"])
         return "res", res
     return "crash", status
+
+
+def minimise_isolated(check, ctx, desc, viol, timeout_s=600):
+    """check.minimise in a forked child (the failing code is executed many times there and may corrupt memory); returns
+    the minimised descriptor, or None when the child died, hung or raised"""
+    class _Min(object):
+        def execute(self, d, ctx_):
+            return {"desc": check.minimise(d, viol, ctx_)}
+    try:
+        kind, res = run_single_isolated(_Min(), ctx, desc, timeout_s, safe=False)
+    except HarnessError as e:
+        print("note: minimiser failed, reporting the original\n" + str(e)[-2000:])
+        return None
+    if kind != "res":
+        print("note: minimiser %s, reporting the original" % ("hung" if kind == "timeout" else "died (status %s)" % res))
+        return None
+    return res["desc"]
 
 
 def run_sequence_isolated(check, ctx, verif_seed, indices, timeout_s=600):
@@ -466,15 +497,13 @@ def _main(check, ctx, args, t0):
             rc = 1
             continue
         if hasattr(check, "minimise") and not v["class"].startswith("crash"):
-            try:
-                desc2 = check.minimise(desc, v, ctx)
+            desc2 = minimise_isolated(check, ctx, desc, v)
+            if desc2 is not None:
                 kind, res = run_single_isolated(check, ctx, desc2)
                 if kind == "res" and res.get("viol") and res["viol"]["class"] == v["class"]:
                     desc, v = desc2, res["viol"]
                 else:
                     print("note: minimised descriptor did not reproduce in a fresh process; reporting the original")
-            except Exception:
-                print("note: minimiser failed, reporting the original\n" + traceback.format_exc())
         path = write_replay(check.id, desc, v, ctx.seed, r["i"])
         print("violation class=%s key=%s runs=%d first_index=%d detail=%s" %
               (v["class"], v.get("key"), len(rs), r["i"], v.get("detail", "")))
